@@ -174,8 +174,7 @@ def run(rep, tier, rng):
     rep.cov["rebuilt_from_own_rings"] = len(rebuilt)
     rep.sample({"case": cases[3][:24], "style": meta[3][3]})
     rep.cov["oracle"] = {"checked": len(cases), "failing": nfail}
-    rep.assumptions += ["orientation against the exact signed area is checked, not proved: the theorem C16_orientation is stated "
-                        "on the orientation test itself (IEEE shoelace sum, Flocq) under the hypothesis that the test tells the "
-                        "ring from its mirror image; F64Exact (exactness of the double evaluation on bounded dyadic rationals) "
-                        "was not completed (DESIGN.md section 11, fallback)",
+    rep.assumptions += ["orientation by exact signed area is proved on the exact domain of Proofs/F64Exact.v (common exponent, "
+                        "(vertices+1)*4C^2 < 2^53); the oracle checks it on every generated ring whose double evaluation is exact, "
+                        "a superset of that domain",
                         "the polygon!/multipatch! macros expand to the same constructors; not exercised separately"]
